@@ -293,6 +293,18 @@ class Gen:
                 out.extend(s if isinstance(s, list) else [s])
         return out
 
+    def arr_elem(self, env, et):
+        """Element of a typed array initialiser.  docs/language/semantics.md: int[] accepts int, bit
+        and float (truncated); float[] accepts float, int and bit (promoted)."""
+        r = self.r
+        if et in ("int", "float") and r.random() < 0.5:
+            src = r.choice({"int": ["int", "bit", "bit", "float"], "float": ["float", "int", "bit"]}[et])
+            e = self.expr(env, src, 1, pure=True) if r.random() < 0.6 else self.lit(src)
+            if e is not None:
+                self.coverage.add(("arrinit", et, src))
+                return e
+        return self.lit(et)
+
     def decl(self, env, t=None):
         r = self.r
         t = t or r.choice(SCALARS + SCALARS + ARRAYS)
@@ -303,7 +315,7 @@ class Gen:
             if form < 0.6:
                 n = r.randint(1, 4)
                 self.arrlen[name] = n
-                s = ("declarr", t, name, [self.lit(et) for _ in range(n)])
+                s = ("declarr", t, name, [self.arr_elem(env, et) for _ in range(n)])
             elif form < 0.8:
                 n = r.randint(1, 4)
                 self.arrlen[name] = n
@@ -839,7 +851,23 @@ class Interp:
         if k == "decl":
             env[s[2]] = self.ev(s[3], env)
         elif k == "declarr":
-            env[s[2]] = [x[2] for x in s[3]]
+            et = s[1][:-2]
+            vals = []
+            for x in s[3]:
+                v = self.ev(x, env)
+                src = type_of(x)
+                if et == "int" and src == "float":
+                    if not math.isfinite(v) or abs(v) >= 2 ** 31:
+                        raise KeptOut("float element of an int[] initialiser out of range")
+                    v = int(v)
+                elif et == "int" and src == "bit":
+                    v = int(v)
+                elif et == "float" and src in ("int", "bit"):
+                    if abs(v) > 2 ** 24:
+                        raise KeptOut("int element of a float[] initialiser not exact in float32")
+                    v = float(v)
+                vals.append(v)
+            env[s[2]] = vals
         elif k == "declsized":
             et = s[1][:-2]
             d = {"int": 0, "long": 0, "float": 0.0, "bit": 0, "boolean": False, "string": "", "char": "\0"}[et]
